@@ -1,5 +1,5 @@
 (* Wire codec of statement-level programs (harness/props/c02.py is the other side).
-   stmt:  (0 x expr)  (1 x op expr)  (2 (block ...) else)  (3 block)  (4 i block)  (5) | (5 expr)  (6 x rhs)
+   stmt:  (0 x expr)  (1 x op expr)  (2 (block ...) else)  (3 block)  (4 i block)  (5) | (5 expr)  (6 x rhs)  (7 (x ...) (expr ...))
    rhs:   (0 expr) | (1 target n_expr rhs)                                  a comprehension over range(n)
    block = (stmt ...); else = () | (block)
    item:  (0 stmt)  (1 name ((param ann) ...) retann block)  (2 block);  ann = () | (text) *)
@@ -15,6 +15,17 @@ Fixpoint dec_rhs (v : wv) : option rhs :=
       match un_text t, dec_expr n, dec_rhs r with
       | Some t1, Some nn, Some rr => Some (RComp t1 nn rr) | _, _, _ => None end
   | _ => None
+  end.
+
+Fixpoint dec_names (l : list wv) : option (list ident) :=
+  match l with
+  | [] => Some []
+  | x :: r => match un_text x, dec_names r with Some xx, Some rr => Some (xx :: rr) | _, _ => None end
+  end.
+Fixpoint dec_exprs (l : list wv) : option (list pexpr) :=
+  match l with
+  | [] => Some []
+  | x :: r => match dec_expr x, dec_exprs r with Some xx, Some rr => Some (xx :: rr) | _, _ => None end
   end.
 
 Fixpoint dec_stmt (v : wv) : option stmt :=
@@ -46,6 +57,8 @@ Fixpoint dec_stmt (v : wv) : option stmt :=
   | WL [WI 5; e] => match dec_expr e with Some ee => Some (SReturn (Some ee)) | None => None end
   | WL [WI 6; x; r] =>
       match un_text x, dec_rhs r with Some xx, Some rr => Some (SAssignR xx rr) | _, _ => None end
+  | WL [WI 7; WL xs; WL es] =>
+      match dec_names xs, dec_exprs es with Some xx, Some ee => Some (STuple xx ee) | _, _ => None end
   | _ => None
   end.
 
@@ -92,14 +105,17 @@ Definition enc_decls (l : list (ident * cty)) : wv :=
 Definition enc_labels (l : list (ident * ty)) : wv :=
   WL (map (fun xt => WL [wtext (fst xt); enc_ty (snd xt)]) l).
 Definition enc_fdef (nd : ident * fdef) : wv :=
-  WL [wtext (fst nd); enc_cty (fd_ret (snd nd)); enc_decls (fd_params (snd nd)); enc_decls (fd_locals (snd nd))].
+  WL [wtext (fst nd); enc_cty (fd_ret (snd nd)); enc_decls (fd_params (snd nd)); enc_decls (fd_locals (snd nd));
+      WL (map enc_cty (fd_tmps (snd nd)))].
 
-(* (0 globals loop_locals functions labels final_var_types) | (1 4) *)
+(* (0 globals loop_locals functions labels final_var_types tuple_temporaries) | (1 4) *)
 Definition enc_prog (r : option pstate) : wv :=
   match r with
   | None => werr 4
   | Some ps =>
       wok [enc_decls (p_globals ps); enc_decls (p_loop ps);
            WL (map enc_fdef (selected_functions (p_fe ps)));
-           enc_labels (p_labels ps); enc_tenv (d_types (p_ctx ps))]
+           enc_labels (p_labels ps); enc_tenv (d_types (p_ctx ps));
+           WL (map (fun xt => enc_cty (cpp_type (snd xt)))
+                   (filter (fun xt => text_eqb (fst xt) tmp_marker) (p_labels ps)))]
   end.
